@@ -188,6 +188,12 @@ func IntProps(propContainer map[string]object.PanObject) map[string]object.PanOb
 			) object.PanObject {
 				self, other, err := checkIntInfixArgs(args, "**", object.NewPanInt(1))
 				if err == nil {
+					// exact integer power if it fits in int64
+					if p, ok := intPow(self.Value, other.Value); ok {
+						// NOTE: Int's descendants also call this
+						return object.NewInheritedInt(args[0].Proto(), p)
+					}
+
 					res := math.Pow(float64(self.Value), float64(other.Value))
 					// check if f is integer
 					if math.Floor(res) == res {
@@ -244,7 +250,8 @@ func IntProps(propContainer map[string]object.PanObject) map[string]object.PanOb
 				res := self.Value / other.Value
 
 				// HACK: convert round to floor
-				if res < 0 && self.Value%other.Value != 0 {
+				// (the quotient is rounded toward zero iff operands have opposite signs)
+				if (self.Value < 0) != (other.Value < 0) && self.Value%other.Value != 0 {
 					// NOTE: Int's descendants also call this
 					return object.NewInheritedInt(args[0].Proto(), res-1)
 				}
@@ -459,6 +466,22 @@ func IntProps(propContainer map[string]object.PanObject) map[string]object.PanOb
 			},
 		),
 	}
+}
+
+// intPow returns base**exp if exp >= 0 and the result fits in int64.
+func intPow(base, exp int64) (int64, bool) {
+	if exp < 0 {
+		return 0, false
+	}
+	// NOTE: |base| >= 2 overflows int64 if exp > 63
+	if exp > 63 && (base > 1 || base < -1) {
+		return 0, false
+	}
+	p := new(big.Int).Exp(big.NewInt(base), big.NewInt(exp), nil)
+	if !p.IsInt64() {
+		return 0, false
+	}
+	return p.Int64(), true
 }
 
 func checkIntInfixArgs(
